@@ -1,33 +1,47 @@
 """C02 — no file content can crash a loader (DESIGN.md section 7, C02; notes/C02.md)."""
 import os, re, json, struct
 from props import c02gen as g
+from props import c02text
 
 ID = 'C02'
-GENERATORS = ['gen_codepage', 'gen_formats', 'gen_sauce', 'gen_font', 'gen_palette', 'gen_icy', 'gen_c02']
-COQ_TARGETS = ['Props/C02.vo', 'Run/RunC02.vo', 'Run/RunC11.vo', 'Run/RunC17.vo']
+GENERATORS = ['gen_codepage', 'gen_formats', 'gen_sauce', 'gen_font', 'gen_palette', 'gen_icy', 'gen_c02', 'gen_filemode']
+COQ_TARGETS = ['Props/C02.vo', 'Run/RunC02.vo', 'Run/RunC02Text.vo', 'Run/RunC11.vo', 'Run/RunC17.vo']
 PROPS_MODULE = 'Props.C02'
 THEOREMS = ['sauce_extract_total', 'sauce_split_total', 'bitfont_from_bytes_total', 'tdf_from_bytes_total', 'palette_load_total',
             'known_1_witness', 'bin_loader_total', 'adf_loader_total', 'idf_loader_total', 'xb_loader_total',
             'xb_compressed_reader_total', 'tnd_loader_total', 'icy_string_total', 'icy_layer_record_total',
             'icy_continuation_total', 'icy_header_total', 'icy_document_total', 'from_bytes_total', 'from_bytes_binary_total',
-            'ext_table_ok']
+            'ext_table_ok',
+            # extension x02: the text loaders (hypothesis of from_bytes_total discharged)
+            'file_initial_state', 'file_ansi_char_total', 'file_wrappers_stream_total', 'file_ascii_stream_total', 'file_atascii_stream_total',
+            'file_petscii_stream_total', 'sixel_epilogue_total', 'text_load_total', 'text_load_no_ansi_total', 'known_2_witness', 'known_3_witness',
+            'text_load_hypothesis_discharged', 'from_bytes_total_unconditional', 'from_bytes_crash_is_macro', 'from_bytes_no_ansi_total']
 SWEEP_LEMMAS = ['C02DispatchProofs.ext_table_sweep (the generated extension table on the 20 listed extensions, upper case, unknown, empty)',
                 'C02Proofs.ega_offsets_small (the 16 generated EGA_COLOR_OFFSETS are < 64)']
 TRUSTED = ['Coq 8.16.1 kernel + vm_compute; no axioms (Print Assumptions: closed)',
            'translator/gen_c02.py (FORMATS order, extension literals, shape of the dispatch in Buffer::from_bytes) and the translators of C05/C11/C16/C17/C07 whose generated constants the models use',
            'harness/src/c02.rs, harness/src/c05.rs (observation of a loaded buffer), props/lib_c07.py (PNG/zTXt/base64 container writer used to deliver payloads)',
+           'translator/gen_filemode.py: textual re-instantiation of C01\'s parser models and weak-invariant proof scripts over Model/FileCore.v (Coq checks the result), the pin of every reader of Buffer::is_terminal_buffer',
            'Rust: Vec / slice / String::from_utf8_lossy / char::from_u32 / regex captures / str::parse / chrono / png / base64 / flate2 behave as documented (they are oracles of the models)']
-UNMODELLED = ['the nine text loaders as functions (parsers of C01 on a non-terminal buffer, parse_with_parser epilogue): hypothesis of from_bytes_total, exercised by stages C (outcome class only) and S',
-              'the PNG / zTXt / zlib / base64 container of .icy files (oracle `icy_chunks`); sixel decoding threads',
+UNMODELLED = ['text loaders: the sixel decode threads and the font table are oracles of the epilogue of parse_with_parser (which sixels were decoded, their position and pixel size, the size of font 0, whether a decode failed); the arithmetic on them is modelled and proved panic-free for a sane oracle; a sixel next to a degenerate font 0 is known finding C02-sixel-font0',
+              'text loaders: convert_ansi_to_utf8 is the input side of the theorems (they hold for every character list); the parser models are C01\'s, made for `byte as char`: for characters >= U+10000 (a UTF-8 file behind a BOM) ASCII / Avatar truncate with `as u16`, which the models do not follow; cell content beyond (code, background) and the bold-folding loop (identity on that projection)',
+              'text loaders: unbounded macro recursion (known class C02-stackoverflow:invoke_macro_by_id = C01\'s); a terminating nesting deeper than 32 is the overflow outcome of the model',
+              'the PNG / zTXt / zlib / base64 container of .icy files (oracle `icy_chunks`)',
               'Palette::load_palette as code: regex pipelines, model = C16 total functions; PaletteFormat::Ase is a stub (known finding)',
               'time and memory (property C03): extreme declared sizes are classified C02-resource:* and listed as known',
               'Buffer::from_bytes on a path without extension (`extension().unwrap()` panics): outside the property text, observation only',
               'Layer::from_clipboard_data, Buffer::get_char on a layer whose offset is i32::MIN (overflow after a successful load): not loaders']
 ASSUMPTIONS = ['64-bit usize; files shorter than 2^31 bytes',
-               'text loaders: from_bytes_total takes `text_load f content s <> OPanic` as a hypothesis (C01 covers terminal buffers only and is partial for ANSI)']
-LEVEL_TEXT = 'full for the binary loaders (BIN, ADF, IDF, XBin incl. compressed data, Tundra), SAUCE, fonts, TheDraw, palettes and the from_bytes dispatch; partial for IcyDraw (container is an oracle) and for the text formats (hypothesis, = level of C01)'
-LEVEL_NOTE = 'one totality theorem per loader over all byte strings; 11 panics found and fixed, 1 stub known'
-TECHNIQUE = 'checked-indexing models + induction over fuel/length (guards imply every checked read succeeds), composition with C11 split_total and C17/C05 models; fuzz oracle over every extension'
+               'text loaders: row counters stay below 2^31 (as in C01 / C09); debug-profile arithmetic (overflow checks on), which is what the harness runs',
+               'text loaders: sane sixel oracle (no sixel, or font 0 at least 1 x 1 and every sixel\'s pixel rectangle inside i32) - the complement is known finding C02-sixel-font0']
+LEVEL_TEXT = ('full for the binary loaders (BIN, ADF, IDF, XBin incl. compressed data, Tundra), SAUCE, fonts, TheDraw, palettes, the from_bytes dispatch AND the eight text loaders '
+              '(ans/ice/diz/unknown, avt, pcb, asc, msg, an1-an9, seq, ata): from_bytes_total_unconditional has no hypothesis on the text loaders - every character list, every SAUCE record '
+              '(height 0 included), parsers of C01 re-proved on a file buffer, parse_with_parser epilogue; outside two known classes (self-invoking macro = C01\'s; a sixel next to a degenerate font 0). '
+              'Partial for IcyDraw (container is an oracle) and for the sixel epilogue (decode threads / font table are oracles)')
+LEVEL_NOTE = 'one totality theorem per loader over all byte strings / character lists; 11 panics found and fixed, 1 stub known, 2 known classes in the text loaders (1 new: sixel next to a degenerate font 0)'
+TECHNIQUE = ('checked-indexing models + induction over fuel/length (guards imply every checked read succeeds), composition with C11 split_total and C17/C05 models; text loaders: a weak invariant of the '
+             'terminal core on a file buffer (widths >= 1, margins ordered, cursor >= 0, no condition on heights) kept by every operation, C01\'s character / stream scripts regenerated over it, '
+             'initial state of every loader in the invariant for every SAUCE record; fuzz oracle over every extension')
 RULE = ('seed files from the engine writers for every loader; every truncation (sampled for long files), single- and multi-byte corruption, '
         '16/32-bit header extremes, random bytes with format magic, SAUCE tails (well-formed, bad version/date, comment blocks, random 128-byte '
         '"SAUCE…" records); text formats additionally token streams of the C01 alphabet and malformed streams; IcyDraw payload mutations re-packed '
@@ -78,8 +92,8 @@ def enclosing_fn(repo, loc):
         if mm: return mm.group(1)
     return os.path.basename(path) + ':' + str(line)
 
-def classify(ctx, what, r):
-    """what: loader / extractor name used for resource classes. Returns None (fine) or a signature"""
+def classify(ctx, what, r, data=None):
+    """what: loader / extractor name used for resource classes; data: the file bytes (text loaders). Returns None (fine) or a signature"""
     cls = r[0]
     if cls in ('ok', 'err'): return None
     if cls == 'panic':
@@ -88,9 +102,18 @@ def classify(ctx, what, r):
         fn = enclosing_fn(ctx.repo, loc)
         if fn == 'load_palette' and what == 'Palette::load_palette(Ase)': return 'C02-ase-todo'
         if fn == 'export_palette' and what == 'Palette::export_palette(Ase)': return 'C02-ase-todo'
+        if what in ANSI_INSIDE and sixel_font0(data) and (fn in ('parse_with_parser', 'get_screen_rect') or 'raw_vec' in loc):
+            return 'C02-sixel-font0'
         return 'C02-panic:' + fn
     if cls in ('timeout', 'oom'): return 'C02-resource:' + what
+    if cls == 'stackoverflow' and what in ANSI_INSIDE and data is not None and b'!z' in data:
+        return 'C02-stackoverflow:invoke_macro_by_id'        # Known 2: a stored macro is being replayed (the only overflow the model has)
     return 'C02-%s:%s' % (cls, what)
+
+ANSI_INSIDE = ('Ansi::load_buffer', 'Avatar::load_buffer', 'PCBoard::load_buffer', 'CtrlA::load_buffer', 'Renegade::load_buffer')
+def sixel_font0(data):
+    """Known 3: the file replaces font 0 by a `CTerm:Font:0:` DCS string and contains a sixel string"""
+    return data is not None and re.search(rb'CTerm:Font:\+?0+:', data) is not None and re.search(rb'\x1bP[0-9;]*q', data) is not None
 
 # ------------------------------------------------------------------------------------------------ seeds
 def make_seeds(ctx, per_ext):
@@ -247,9 +270,14 @@ def correspondence(ctx):
                 m = None if m is None else m[:1]
         if m is None or got != m:
             dis.append({'case': c[:4000], 'kind': k, 'impl': got if len(str(got)) < 300 else str(got)[:300], 'model': m if m is None or len(str(m)) < 300 else str(m)[:300]})
-    return {'cases': len(cases), 'disagreements': dis, 'distinct_nontrivial': len(set(cases)),
-            'distribution': dict(dist, model_errors=getattr(ctx, 'model_errors', [])[:2]),
-            'samples': [cases[0][:200], cases[len(cases) // 2][:200]]}
+    errs = getattr(ctx, 'model_errors', [])[:2]
+    # (4) the text loaders: whole files through Buffer::from_bytes against Model/FileLoad.v (props/c02text.py)
+    tx = c02text.correspondence(ctx)
+    dis += tx['disagreements']
+    for k, v in tx['distribution'].items(): dist['text:' + k] = v
+    return {'cases': len(cases) + tx['cases'], 'disagreements': dis, 'distinct_nontrivial': len(set(cases)) + tx['distinct'],
+            'distribution': dict(dist, model_errors=errs + getattr(ctx, 'model_errors', [])[:2]),
+            'samples': [cases[0][:200], cases[len(cases) // 2][:200]] + tx['samples']}
 
 def font_bytes(rng):
     r = rng.random()
@@ -327,11 +355,16 @@ def search(ctx, broken):
         cases.append(case); what.append(w); labels.append(lbl)
     for lbl, c in REGRESSION + icy_regressions():
         add(c, 'regression', lbl)
+    # the directed files of the text-loader correspondence (incl. the two known classes: they must keep their signatures)
+    for lbl, ext, c, _ in c02text.directed():
+        add('c2load %s %s' % (ext, g.hexs(c)), 'regression', lbl)
+    for lbl, ext, c, w, h, ice in c02text.sauce_directed():
+        add('c2load %s %s' % (ext, g.hexs(c + c02text.mk_sauce(w, h, ice))), 'regression', lbl)
     # inputs on which model and implementation disagreed come first
     for b in broken:
         d = b.get('detail') or {}
         if isinstance(d, dict) and isinstance(d.get('case'), str):
-            c = d['case'].replace('c5load ', 'c2load ', 1)
+            c = d['case'].replace('c5load ', 'c2load ', 1).replace('c2text ', 'c2load ', 1)
             add(c, 'correspondence-disagreement', 'disagreement')
     budget = ctx.n(600, 2000)
     for ext in g.EXTS:
@@ -344,6 +377,14 @@ def search(ctx, broken):
             for lbl, d in g.text_streams(rng, ext, b):
                 tail = g.sauce_tail(rng) if rng.random() < 0.2 else b''
                 add('c2load %s %s' % (ext, g.hexs(d + tail)), LOADER_FN[ld], lbl)
+            if ext in c02text.EMU:
+                # streams with macros (definition, replay, nesting), resizes, custom fonts and sixels, file-buffer scrolling; SAUCE sizes the loaders act on
+                for _ in range(b // 3):
+                    d, lbl = c02text.stream(rng, ext)
+                    if rng.random() < 0.15 and ld in ('ans', 'avt', 'pcb', 'msg', 'an1'):
+                        d = c02text.font0(rng.choice([0, 1, 8, 9, 2 ** 30, 2 ** 31, 2 ** 32 - 1]), rng.choice([0, 1, 16, 2 ** 30, 2 ** 32 - 1])) + d
+                    tail = c02text.text_sauce(rng) if rng.random() < 0.3 else b''
+                    add('c2load %s %s' % (ext, g.hexs(d + tail)), LOADER_FN[ld], 'x-' + lbl)
     for lbl, d in g.icy_payload_mutants(rng, seeds.get('icy', []), budget * 4):
         add('c2load icy ' + g.hexs(d), LOADER_FN['icy'], lbl)
     if ctx.thorough or ctx.escalated:
@@ -375,7 +416,11 @@ def search(ctx, broken):
         if w in ('regression', 'correspondence-disagreement'):
             ext = c.split()[1].lower() if c.startswith('c2load') else ''
             target = LOADER_FN.get(loader_of(ext), c.split()[0])
-        sig = classify(ctx, target, r)
+        data = None
+        if c.startswith('c2load ') or c.startswith('c2text '):
+            try: data = g.unhex(c.split()[2])
+            except Exception: data = None
+        sig = classify(ctx, target, r, data)
         if sig is None: continue
         failures.append({'signature': sig, 'input': c, 'impl': list(r), 'expected': 'ok or err',
                          'detail': '%s on a %s input (%s)' % (r[0], lbl, w)})
@@ -398,7 +443,14 @@ def replay(ctx, body):
         d = g.unhex(parts[2])
         m = ctx.model(IMPORTS, ['run_bytes %s %s' % (coq_ext(parts[1]), coq_list(d))])
         print('model (digest of the load observation; [1,0,..]=Err, [1,-1,..]=Panic):', str(m[0])[:300])
-    what = LOADER_FN.get(loader_of(parts[1].lower()), parts[0]) if parts[0] == 'c2load' else parts[0]
-    sig = classify(ctx, what, r)
+    if parts[0] == 'c2text':
+        d = g.unhex(parts[2])
+        if r[0] == 'ok' and r[1] and r[1][0] == 1: fw, fh, sx = c02text.oracle_from_obs(r[1])
+        else: fw, fh, sx = 8, 16, []
+        m = ctx.model(c02text.MODEL_IMPORTS, [c02text.model_expr(parts[1], d, fw, fh, sx, False, None)])
+        print('model (Run/RunC02Text.v; sixel oracle taken from the observation, 8x16 and no sixel when the load failed):', str(m[0])[:600])
+    what = LOADER_FN.get(loader_of(parts[1].lower()), parts[0]) if parts[0] in ('c2load', 'c2text') else parts[0]
+    data = g.unhex(parts[2]) if parts[0] in ('c2load', 'c2text') and len(parts) > 2 else None
+    sig = classify(ctx, what, r, data)
     print('oracle:', sig or 'passes')
     return 1 if sig else 0
